@@ -1,6 +1,6 @@
 (* C11 -- TLV iteration yields exactly the standard type-length-value walk and then stops.
    Statements only: every theorem is closed by [exact] of a lemma from Proofs/Tlv.v. *)
-From PPP Require Import Base.Bytes Model.V2 Spec.TlvWalk Proofs.BytesFacts Proofs.Tlv.
+From PPP Require Import Base.Bytes Model.V2 Spec.V2Wire Spec.TlvWalk Proofs.BytesFacts Proofs.Tlv Proofs.Extra.
 
 (* the iterator model yields the walk of Spec/TlvWalk.v (error payloads as the code reports them) *)
 Theorem C11_walk : forall s : bytes,
@@ -36,6 +36,12 @@ Proof. exact walk_Walk. Qed.
 Theorem C11_bound : forall s items, collect s = Some items -> N.of_nat (length items) <= lenN s / 3 + 1.
 Proof. exact collect_bound. Qed.
 
+(* the TLV section of any accepted header: iterating it is the walk of the section the Spec prescribes *)
+Theorem C11_header : forall x h, wf_bytes x = true -> p2 x = Ok h ->
+  exists items, Walk (spec_tlv_section h) items
+                /\ collect (h_tlv_bytes h) = Some (map (item_abs (lenN (h_tlv_bytes h))) items).
+Proof. exact header_tlvs_walk. Qed.
+
 (* non-vacuity: a section with a 300-byte value length field, an empty value and a truncated tail *)
 Example C11_example :
   collect [4; 0; 2; 7; 8; 5; 0; 0; 9; 1; 44] =
@@ -50,3 +56,4 @@ Print Assumptions C11_fused_end.
 Print Assumptions C11_fused_err.
 Print Assumptions C11_oracle.
 Print Assumptions C11_bound.
+Print Assumptions C11_header.
